@@ -34,6 +34,7 @@
 #include <pthread.h>
 #include <spawn.h>
 #include <sys/stat.h>
+#include <sys/resource.h>
 #include <sys/types.h>
 #include <sys/wait.h>
 #include <unistd.h>
@@ -490,6 +491,7 @@ struct CbCtx {
   std::set<std::string> reject_norm;
   std::set<std::string> reject_spelled;
   bool nested = false; std::string n_usr, n_etc, n_name, n_suffix;   // the callback itself uses the library (re-entrancy)
+  bool reject_unlink = false;     // a quarantining check: the rejected file is moved away by the callback itself
   long long calls = 0;
 };
 static thread_local CbCtx *t_expected_cb = nullptr;
@@ -523,6 +525,7 @@ static bool the_callback(const char *filename, const void *data) {
     if (m->reject_base.count(sl == std::string::npos ? fn : fn.substr(sl + 1))) accept = false;
   }
   if (!accept) R.fired["veto"]++;
+  if (!accept && m->reject_unlink) { if (unlink(filename) == 0) { R.fired["callback_removes_rejected_file"]++; log_event("env_unlink", fn, 0, 0); } }
   log_event(accept ? "cb_accept" : "cb_reject", fn, data_ok ? 1 : 0, 0);
   errno = en(errno, true);      // a caller's callback may leave anything in errno (it looked for a signature file, ...)
   return accept;
@@ -535,6 +538,7 @@ static void cb_setup(const json &op, CbCtx &c) {
   if (it->contains("reject_norm")) for (auto &p : (*it)["reject_norm"]) c.reject_norm.insert(normp(subst_in(u2b(p.get<std::string>()))));
   if (it->contains("reject_spelled")) for (auto &p : (*it)["reject_spelled"]) c.reject_spelled.insert(collapse(subst_in(u2b(p.get<std::string>()))));
   if (it->contains("nested")) { const json &n = (*it)["nested"]; c.nested = true; c.n_usr = SS(n, "usr"); c.n_etc = SS(n, "etc"); c.n_name = SS(n, "name"); c.n_suffix = SS(n, "suffix"); }
+  c.reject_unlink = it->value("reject_unlink", false);
   if (it->contains("reject_base")) for (auto &p : (*it)["reject_base"]) c.reject_base.insert(u2b(p.get<std::string>()));
 }
 
@@ -558,6 +562,13 @@ static bool read_whole(const std::string &p, std::string &out) {
   char buf[65536]; ssize_t r; out.clear();
   while ((r = read(fd, buf, sizeof buf)) > 0) out.append(buf, (size_t)r);
   close(fd); return true;
+}
+static bool g_nofile_saved = false; static rlim_t g_nofile_soft = 0;
+static long count_fds() {
+  long n = 0; DIR *d = opendir("/proc/self/fd"); if (!d) return -1;
+  while (readdir(d)) n++;
+  closedir(d);
+  return n - 3;     // ".", ".." and the descriptor of this very listing
 }
 static json tree_entry(const json &e) {
   std::string t = e.value("t", "f");
@@ -946,6 +957,13 @@ static json exec_op(TaskCtx *t, const json &op) {
     const char *s; { LibCall L; s = econf_errString((econf_err)I(op, "code")); } r["v"] = J(s);
   } else if (o == "errLocation") {
     char *fn = nullptr; uint64_t ln = 0; { LibCall L; econf_errLocation(&fn, &ln); } r["file"] = J(fn); r["line"] = ln; LibCall L; free(fn);
+  } else if (o == "fd_budget") {
+    // resource fault: the process may open only a few more descriptors than it holds now
+    struct rlimit rl; getrlimit(RLIMIT_NOFILE, &rl);
+    if (!g_nofile_saved) { g_nofile_soft = rl.rlim_cur; g_nofile_saved = true; }
+    rl.rlim_cur = (rlim_t)(count_fds() + I(op, "extra", 8));
+    if (rl.rlim_cur > rl.rlim_max) rl.rlim_cur = rl.rlim_max;
+    r["rc"] = setrlimit(RLIMIT_NOFILE, &rl) ? errno : 0; r["limit"] = (long long)rl.rlim_cur; R.fired["fd_budget"]++;
   } else if (o == "chdir") {
     // environment: the application changes its working directory between two calls
     std::string d = SS(op, "path"); mkdirs(d);
@@ -1055,7 +1073,14 @@ static json run_plan(const json &plan) {
   R.ledger_on = cfg.value("ledger", true);
   R.io.s = cfg.value("io_seed", (uint64_t)1);
   R.errno_noise = (cfg.value("errno_noise", false) && !R.passthrough) ? (cfg.value("io_seed", (uint64_t)1) ^ 0xE77E77E77ull) | 1 : 0; R.n_errno_noise = 0;
-  setlocale(LC_ALL, cfg.value("locale", std::string("C")).c_str());
+  {
+    std::string loc = cfg.value("locale", std::string("C"));
+    if (loc == "xx_XX") {
+      // a private locale (sim/locale, found through LOCPATH) whose only category is LC_NUMERIC with ',' as decimal point
+      setlocale(LC_ALL, "C");
+      if (!setlocale(LC_NUMERIC, "xx_XX")) R.fired["locale_unavailable"]++; else R.fired["comma_decimal_locale"]++;
+    } else setlocale(LC_ALL, loc.c_str());
+  }
   clear_sandbox();
   sim_steps = 0; sim_step_budget = ~0ull;
   normalise_library_state();
@@ -1167,6 +1192,7 @@ static json run_plan(const json &plan) {
     for (auto &f : R.files) __real_fclose(f.first);
     R.files.clear();
   }
+  if (g_nofile_saved) { struct rlimit rl; getrlimit(RLIMIT_NOFILE, &rl); rl.rlim_cur = g_nofile_soft; setrlimit(RLIMIT_NOFILE, &rl); g_nofile_saved = false; }
   if (!g_cwd.empty()) { if (chdir("/")) {} g_cwd.clear(); }
   if (!cfg.value("keep_tree", false)) clear_sandbox();
   g_plan_no++;
